@@ -290,9 +290,10 @@ class RepartitionDivisions(Repartition):
             """Whether last division only contains single label"""
             return len(x) >= 2 and x[-1] == x[-2]
 
-        c = [a[0]]
+        # with ``force`` the new divisions may start left of the old ones
+        c = [b[0]]
         d = dict()
-        low = a[0]
+        low = b[0]
 
         i, j = 1, 1  # indices for old/new divisions
         k = 0  # index for temp divisions
